@@ -335,6 +335,37 @@ def body(chk):
                             chk.report(f"UN:{ess}:history:{opn}", f"{text} fails: {out[1]}", replay)
                         unit_case(opn, dv, dv2, out, f"UN:{ess}:history:{opn}:unit", replay)
 
+    # ---- the unit of an operand is changed AFTER the operand has been used (and printed): every later result follows the unit the
+    # operand carries at the time of the operation
+    for ess in ESSENCES:
+        U, V, W = set_unit(make(ess, rng), "m"), set_unit(make(rng.choice(ESSENCES), rng), "s"), set_unit(make(ess, rng), "m")
+        first = run(lambda: U * V)
+        repr(U)
+        unit_case("mul", UNITS["m"], UNITS["s"], first, f"UN:{ess}:unit-change:before", {"kind": "oracle", "essence": ess, "expr": "U[m] * V[s]"})
+        for new_unit in ("kg", "s"):
+            set_unit(U, new_unit)
+            uv = UNITS[new_unit]
+            seq = [("mul", lambda: U * V, uv, UNITS["s"]), ("div", lambda: U / V, uv, UNITS["s"]), ("neg", lambda: -U, uv, None),
+                   ("mul", lambda: 3 * U, None, uv), ("div", lambda: 6 / U, None, uv), ("sub", lambda: 2 - U, None, uv)]
+            for opn, f, a, b in seq:
+                out = run(f)
+                chk.count(f"unit-change-{ess}-{opn}", key=(ess, new_unit, opn, a, b))
+                replay = {"kind": "oracle", "essence": ess, "history": f"U built with unit m, used in U * V and printed, then U.unit = '{new_unit}'", "op": opn,
+                          "observed": out[:2] + out[4:] if out[0] == "ok" else out}
+                if out[0] != "ok":
+                    chk.report(f"UN:{ess}:unit-change:{opn}", f"{opn} after U.unit = '{new_unit}' fails: {out[1]}", replay)
+                    continue
+                unit_case(opn, a, b, out, f"UN:{ess}:unit-change:{opn}:unit", replay)
+            # sums: compatible with V[s] exactly when U now carries s; never with W[m] any more
+            o1, o2 = run(lambda: U + V), run(lambda: U + W)
+            chk.count(f"unit-change-{ess}-add", key=(ess, new_unit, "add"))
+            rep2 = {"kind": "oracle", "essence": ess, "history": f"U built with unit m, used, then U.unit = '{new_unit}'"}
+            if new_unit == "s" and o1[0] != "ok":
+                chk.report(f"UN:{ess}:unit-change:add", f"U[s] + V[s] is rejected after the unit of U was changed from m to s: {o1[1]}", rep2)
+            if new_unit != "s" and o1[0] == "ok":
+                chk.report(f"UN:{ess}:unit-change:add:dimension", f"U[{new_unit}] + V[s] is accepted", rep2)
+            if o2[0] == "ok":
+                chk.report(f"UN:{ess}:unit-change:add:dimension", f"U[{new_unit}] + W[m] is accepted after the unit of U was changed from m to {new_unit}", rep2)
     chunks = []
     CH = 400
     for s in range(0, len(items), CH):
